@@ -62,9 +62,15 @@ def main():
                 ops.append(pool[int(rng.integers(len(pool)))])
             mpos = [Mpo(model, o) for o in ops]
             del rec[:]
-            fast = np.asarray(mps.expectations(mpos))
+            case = dict(nsite=nsite, ops=[(o.symbol, list(o.dofs), str(o.factor)) for o in ops], bond_dims=[int(x) for x in mps.bond_dims],
+                        complex_state=bool(np.iscomplexobj(mps[0].array)))
             slow = np.array([mps.expectation(m) for m in mpos])
-            case = dict(nsite=nsite, ops=[(o.symbol, list(o.dofs), str(o.factor)) for o in ops])
+            try:
+                fast = np.asarray(mps.expectations(mpos))
+            except Exception as e:  # noqa
+                run.violation(f"expectations:fast-path-raises:{type(e).__name__}", dict(case=case, error=repr(e)[:300], slow=[str(x) for x in slow],
+                                                                                       what="the batched fast path raises where the one-by-one path returns values"))
+                continue
             if fast.shape != slow.shape or np.max(np.abs(fast - slow)) > 1e-10 * max(1.0, np.max(np.abs(slow))):
                 run.violation("expectations:fast-differs-from-slow", dict(case=case, fast=[str(x) for x in fast], slow=[str(x) for x in slow]))
             run.count(f"nops={len(ops)}")
